@@ -498,6 +498,17 @@ func (q *TransferQueue) collectBatches() {
 			verifhook.Yield("collect.abort", q)
 			verifhook.Event("abort", q, "")
 			q.wait.Abort()
+
+			// Nothing will be transferred any more, but callers may
+			// still be adding objects: keep receiving (and dropping)
+			// them until Wait() closes the channel, so that Add()
+			// never blocks on a full buffer.
+			for !closing {
+				verifhook.Yield("collect.drain", q)
+				if _, ok := <-q.incoming; !ok {
+					closing = true
+				}
+			}
 			break
 		}
 
